@@ -76,6 +76,166 @@ func c13Trailing(c *Ctx) {
 		c.CheckerFail("trailing", "anchor json.tokenEOF / parseValue does not resolve")
 		return
 	}
+	isEOFTest := func(ins ssa.Instruction) bool {
+		bo, ok := ins.(*ssa.BinOp)
+		if !ok || (bo.Op != token.NEQ && bo.Op != token.EQL) {
+			return false
+		}
+		for _, v := range []ssa.Value{bo.X, bo.Y} {
+			if n, ok := constInt(v); ok && n == eof && isNamed(v.Type(), jsonPkgPath, "tokenType") {
+				return true
+			}
+		}
+		return false
+	}
+	// excused edge: diagnostics are known to be present (len(diags) != 0, len(diags) > 0,
+	// the false edge of len(diags) == 0, diags.HasErrors(), through any negation)
+	excuse := func(from, to *ssa.BasicBlock) bool {
+		iff, ok := from.Instrs[len(from.Instrs)-1].(*ssa.If)
+		if !ok {
+			return false
+		}
+		cond, neg := iff.Cond, false
+		for {
+			u, ok := cond.(*ssa.UnOp)
+			if !ok || u.Op != token.NOT {
+				break
+			}
+			cond, neg = u.X, !neg
+		}
+		present := false // cond true means diagnostics present
+		switch x := cond.(type) {
+		case *ssa.BinOp:
+			call, ok := x.X.(*ssa.Call)
+			if !ok {
+				return false
+			}
+			bi, ok := call.Call.Value.(*ssa.Builtin)
+			if !ok || bi.Name() != "len" || !isDiagnosticsType(call.Call.Args[0].Type()) {
+				return false
+			}
+			z, isZ := constInt(x.Y)
+			if !isZ || z != 0 {
+				return false
+			}
+			switch x.Op {
+			case token.EQL:
+				neg = !neg
+				present = true
+			case token.NEQ, token.GTR:
+				present = true
+			}
+		case *ssa.Call:
+			if cal := x.Call.StaticCallee(); cal != nil && cal.Name() == "HasErrors" && len(x.Call.Args) == 1 && isDiagnosticsType(x.Call.Args[0].Type()) {
+				present = true
+			}
+		}
+		if !present {
+			return false
+		}
+		if neg {
+			return from.Succs[1] == to
+		}
+		return from.Succs[0] == to
+	}
+	inJSON := func(f *ssa.Function) bool {
+		return f != nil && f != pv && len(f.Blocks) > 0 && fnPkg(f) != nil && fnPkg(f).Path() == jsonPkgPath
+	}
+	involved := map[*ssa.Function]bool{} // functions that hold an EOF test on which the rule relies
+	// a helper that tests for end of input on every path from its entry
+	checkerMemo := map[*ssa.Function]int{}
+	var stop func(ssa.Instruction) bool
+	var eofChecker func(g *ssa.Function) bool
+	eofChecker = func(g *ssa.Function) bool {
+		switch checkerMemo[g] {
+		case 1, 3:
+			return false
+		case 2:
+			return true
+		}
+		checkerMemo[g] = 1
+		has := false
+		for _, b := range g.Blocks {
+			for _, ins := range b.Instrs {
+				if isEOFTest(ins) {
+					has = true
+				}
+			}
+		}
+		ok := false
+		if has {
+			_, escapes := reachesReturnAvoiding(g.Blocks[0], 0, stop, excuse)
+			ok = !escapes
+		}
+		if ok {
+			checkerMemo[g] = 2
+			involved[g] = true
+		} else {
+			checkerMemo[g] = 3
+		}
+		return ok
+	}
+	stop = func(ins ssa.Instruction) bool {
+		if isEOFTest(ins) {
+			return true
+		}
+		if call, ok := ins.(*ssa.Call); ok {
+			if g := call.Call.StaticCallee(); inJSON(g) && eofChecker(g) {
+				return true
+			}
+		}
+		return false
+	}
+	// holds(f): f calls parseValue and every path from there to a return tests for end of input —
+	// directly, through a checker helper, or because f hands the whole job to a function that does
+	holdsMemo := map[*ssa.Function]int{}
+	var holds func(f *ssa.Function, report bool, name string) bool
+	holds = func(f *ssa.Function, report bool, name string) bool {
+		if !report {
+			switch holdsMemo[f] {
+			case 1, 3:
+				return false
+			case 2:
+				return true
+			}
+		}
+		holdsMemo[f] = 1
+		found, all := false, true
+		for _, b := range f.Blocks {
+			for i, ins := range b.Instrs {
+				call, ok := ins.(*ssa.Call)
+				if !ok {
+					continue
+				}
+				cal := call.Call.StaticCallee()
+				if cal == pv {
+					found = true
+					pos, escapes := reachesReturnAvoiding(b, i+1, stop, excuse)
+					if report {
+						c.Check(!escapes, "trailing", "json."+name+":eof-test", call.Pos(), "every error-free path tests for end of input",
+							"a path from parseValue to the return at "+c.P.Position(pos)+" does not test the next token against tokenEOF: data after the JSON value is accepted silently")
+					}
+					all = all && !escapes
+				} else if inJSON(cal) && cal != f && holdsMemo[cal] != 1 && holds(cal, false, "") {
+					found = true
+					if report {
+						c.OK("trailing", "json."+name+":eof-test", call.Pos(), "delegated to "+cal.Name()+", which tests for end of input on every error-free path")
+					}
+				}
+			}
+		}
+		involved[f] = true
+		r := found && all
+		if r {
+			holdsMemo[f] = 2
+		} else {
+			holdsMemo[f] = 3
+		}
+		if report && !found {
+			c.Fail("trailing", "json."+name+":eof-test", f.Pos(), "the entry point does not call parseValue (directly or through a function that tests for end of input)")
+		}
+		return r
+	}
 	for _, name := range []string{"parseFileContent", "parseExpression"} {
 		fn := c.P.LookupFunc("json", name)
 		if fn == nil {
@@ -83,90 +243,23 @@ func c13Trailing(c *Ctx) {
 			continue
 		}
 		c.Fn(FuncName(fn))
-		isEOFTest := func(ins ssa.Instruction) bool {
-			bo, ok := ins.(*ssa.BinOp)
-			if !ok || (bo.Op != token.NEQ && bo.Op != token.EQL) {
-				return false
-			}
-			for _, v := range []ssa.Value{bo.X, bo.Y} {
-				if n, ok := constInt(v); ok && n == eof && isNamed(v.Type(), jsonPkgPath, "tokenType") {
-					return true
-				}
-			}
-			return false
-		}
-		// excused edge: diagnostics are known to be present (len(diags) != 0, len(diags) > 0,
-		// the false edge of len(diags) == 0, diags.HasErrors(), through any negation)
-		excuse := func(from, to *ssa.BasicBlock) bool {
-			iff, ok := from.Instrs[len(from.Instrs)-1].(*ssa.If)
-			if !ok {
-				return false
-			}
-			cond, neg := iff.Cond, false
-			for {
-				u, ok := cond.(*ssa.UnOp)
-				if !ok || u.Op != token.NOT {
-					break
-				}
-				cond, neg = u.X, !neg
-			}
-			present := false // cond true means diagnostics present
-			switch x := cond.(type) {
-			case *ssa.BinOp:
-				call, ok := x.X.(*ssa.Call)
-				if !ok {
-					return false
-				}
-				bi, ok := call.Call.Value.(*ssa.Builtin)
-				if !ok || bi.Name() != "len" || !isDiagnosticsType(call.Call.Args[0].Type()) {
-					return false
-				}
-				z, isZ := constInt(x.Y)
-				if !isZ || z != 0 {
-					return false
-				}
-				switch x.Op {
-				case token.EQL:
-					neg = !neg
-					present = true
-				case token.NEQ, token.GTR:
-					present = true
-				}
-			case *ssa.Call:
-				if cal := x.Call.StaticCallee(); cal != nil && cal.Name() == "HasErrors" && len(x.Call.Args) == 1 && isDiagnosticsType(x.Call.Args[0].Type()) {
-					present = true
-				}
-			}
-			if !present {
-				return false
-			}
-			if neg {
-				return from.Succs[1] == to
-			}
-			return from.Succs[0] == to
-		}
-		found := false
-		for _, b := range fn.Blocks {
-			for i, ins := range b.Instrs {
-				call, ok := ins.(*ssa.Call)
-				if !ok || call.Call.StaticCallee() != pv {
-					continue
-				}
-				found = true
-				pos, escapes := reachesReturnAvoiding(b, i+1, isEOFTest, excuse)
-				c.Check(!escapes, "trailing", "json."+name+":eof-test", call.Pos(), "every error-free path tests for end of input",
-					"a path from parseValue to the return at "+c.P.Position(pos)+" does not test the next token against tokenEOF: data after the JSON value is accepted silently")
-			}
-		}
-		if !found {
-			c.Fail("trailing", "json."+name+":eof-test", fn.Pos(), "the entry point does not call parseValue")
-		}
-		// the not-EOF edge reports an error
+		holds(fn, true, name)
+	}
+	// the not-EOF edge reports an error, in every function the rule relied on
+	var fns []*ssa.Function
+	for f := range involved {
+		fns = append(fns, f)
+	}
+	sort.Slice(fns, func(i, j int) bool { return fns[i].Pos() < fns[j].Pos() })
+	nTests := 0
+	for _, fn := range fns {
+		name := fn.Name()
 		for _, b := range fn.Blocks {
 			for _, ins := range b.Instrs {
 				if !isEOFTest(ins) {
 					continue
 				}
+				nTests++
 				bo := ins.(*ssa.BinOp)
 				// find the If consuming it (possibly through a phi of the && chain)
 				var errEdge *ssa.BasicBlock
@@ -206,6 +299,7 @@ func c13Trailing(c *Ctx) {
 			}
 		}
 	}
+	c.Floor("trailing EOF tests", nTests, 1, "the end-of-input test after the root value")
 }
 
 // stringEqConst: if cond is `s == "lit"` returns lit.
